@@ -14,6 +14,9 @@ PUp == P12 \cup PCls \cup { <<"/", "A", "/", "LOW">>, <<"/", "A", "/", "b">>, <<
 
 \* non-ASCII text in the shared prefix, as a literal and inside a group (character count # byte count)
 PNa == { <<"/", "~e~", "/", "a">>, <<"/", "~e~", "/", "b">>, <<"/", "~e~", "/", "LOW">>, <<"/", "ELW", "/", "a">>, <<"/", "ELW", "/", "b">>, <<"/", "a">> }
+\* an expression whose compiled program takes several MiB (lazy and warmed evaluation must build it with the same limits)
+PBig == { <<"/", "a", "/", "BIGW">>, <<"/", "a", "/", "b">>, <<"/", "BIGW">> }
+ProbesBig == { <<>>, <<"/", "a", "/", "a", "b">>, <<"/", "a", "/", "b">>, <<"/", "a", "/", "~e~">>, <<"/", "a", "/", "a", "/">>, <<"/", "a", "b">> }
 ProbesNa == { <<>>, <<"/", "~e~", "/", "a">>, <<"/", "~e~", "/", "b">>, <<"/", "~e~", "/", "a", "b">>, <<"/", "~e~", "/">>, <<"/", "~e~", "a", "/", "a">>,
               <<"/", "~e~", "b", "a", "/", "b">>, <<"/", "a">>, <<"/", "~e~", "/", "A">>, <<"/", "e", "/", "a">>, <<"/", "~e~", "a", "/", "a", "/">> }
 \* case-insensitive trees emptied and refilled (the case flag must survive every way of emptying)
